@@ -175,6 +175,22 @@ impl Runner {
                     e.register_rule_in(&g, &def).map(|_| json!({})).map_err(|e| format!("{e}"))
                 }
                 "droprule" => e.drop_rule_in(&g, op["name"].as_str().unwrap()).map(|_| json!({})).map_err(|e| format!("{e}")),
+                "schema" => {
+                    // op.cols = [[name, "Int"|"String"|"Float"|"Bool"], ..]
+                    use inputlayer::schema::{ColumnSchema, RelationSchema, SchemaType};
+                    let mut rs = RelationSchema::new(&rel);
+                    for c in op["cols"].as_array().cloned().unwrap_or_default() {
+                        let ty = match c[1].as_str().unwrap_or("Int") {
+                            "String" => SchemaType::String,
+                            "Float" => SchemaType::Float,
+                            "Bool" => SchemaType::Bool,
+                            _ => SchemaType::Int,
+                        };
+                        rs = rs.with_column(ColumnSchema::new(c[0].as_str().unwrap_or("c"), ty));
+                    }
+                    e.register_schema_in(&g, rs).map(|_| json!({})).map_err(|e| format!("{e}"))
+                }
+                "dropschema" => e.remove_schema_in(&g, &rel).map(|_| json!({})).map_err(|e| format!("{e}")),
                 "restart" | "restart_nosave" => Err("restart handled by caller".into()),
                 other => Err(format!("unknown op {other}")),
             }
